@@ -88,6 +88,8 @@ pub struct Sim {
     pending_starve: bool,
     had_restart: bool,
     had_crash: bool,
+    /// a store returned an error since the last restart (what it left behind may surface there)
+    failed_store_since_restart: bool,
     /// probes on which this run already deviated in a way that only speaks for OTHER properties
     /// than the one under check: they are not looked at again (the run goes on)
     masked: BTreeSet<String>,
@@ -132,6 +134,7 @@ impl Sim {
             pending_starve: false,
             had_restart: false,
             had_crash: false,
+            failed_store_since_restart: false,
             masked: BTreeSet::new(),
             other_finding: None,
             sig_acc: 0xcbf2_9ce4_8422_2325,
@@ -186,7 +189,9 @@ impl Sim {
 
     fn disturb(&mut self, what: &'static str) {
         match what {
-            "restart" => self.had_restart = true,
+            "restart" => {
+                self.had_restart = true;
+            }
             "crash" => self.had_crash = true,
             _ => {}
         }
@@ -505,6 +510,13 @@ impl Sim {
                         break;
                     }
                 }
+                if finding.is_none() && self.cfg.obs_level == 9 {
+                    // the final observation of a sparsely observed run
+                    let o = self.observe();
+                    self.last_obs = Some(o);
+                    let ctx = OpCtx { kind: CtxKind::Other, event: None, desc: "the whole history".into(), also: &[] };
+                    finding = self.model_agrees(ops.len(), &ctx);
+                }
             }
         }
         self.finish();
@@ -576,6 +588,12 @@ impl Sim {
 
     /// Compare the real store with the model after a mutating op; attribute the first mismatch.
     fn check_against_model(&mut self, i: usize, ctx: &OpCtx) -> Option<Finding> {
+        if self.cfg.obs_level == 9 && ctx.kind == CtxKind::Store {
+            // bulk histories: stores are not observed one by one (the observation after the next
+            // removal / vanish / restart, and the final one, cover them)
+            self.last_obs = None;
+            return None;
+        }
         let real = self.observe();
         let exp = self.expected();
         let mut result = None;
@@ -872,6 +890,7 @@ impl Sim {
                     }
                     self.last_obs = Some(after);
                     self.disturb("failpoint");
+                    self.failed_store_since_restart = true;
                     k_enum += 1;
                     continue;
                 }
@@ -1091,6 +1110,7 @@ impl Sim {
         // --- after: the full observation against the model
         let is_err = !matches!(out, StoreOutcome::Ok(_));
         if is_err {
+            self.failed_store_since_restart = true;
             // a refused store changes nothing observable (C12), compared real-before vs real-after
             let before = self.last_obs.clone();
             let after = self.observe();
@@ -1460,7 +1480,11 @@ impl Sim {
         let diffs = self.unmasked(obs::diff_all(&before, &after, &[]));
         if !diffs.is_empty() {
             let ctx = OpCtx { kind: CtxKind::Restart, event: None, desc: format!("reopen ({:?})", kind), also: &[] };
-            let (bi, clause, props) = self.attribute_all(&diffs, &ctx);
+            let (bi, clause, mut props) = self.attribute_all(&diffs, &ctx);
+            if self.failed_store_since_restart && !props.contains(&"C12") {
+                // what a failed store left behind surfaced at the restart
+                props.push("C12");
+            }
             let (k, a, b) = &diffs[bi];
             let f = self.finding(
                 i,
@@ -1474,6 +1498,7 @@ impl Sim {
             }
         }
         self.stats.inc("probe/readback_after_restart");
+        self.failed_store_since_restart = false;
         self.last_obs = Some(after);
         // and still what the model says
         let ctx = OpCtx { kind: CtxKind::Restart, event: None, desc: format!("reopen ({:?})", kind), also: &[] };
@@ -1551,7 +1576,10 @@ impl Sim {
         }
         if !diffs.is_empty() {
             let ctx = OpCtx { kind: CtxKind::Restart, event: None, desc: "rebuild".into(), also: &[] };
-            let (bi, clause, props) = self.attribute_all(&diffs, &ctx);
+            let (bi, clause, mut props) = self.attribute_all(&diffs, &ctx);
+            if self.failed_store_since_restart && !props.contains(&"C12") {
+                props.push("C12");
+            }
             let (k, a, b) = &diffs[bi];
             let keys: Vec<String> = diffs.iter().map(|(k, _, _)| k.clone()).collect();
             let f = self.finding(i, &format!("rebuild-changed-{clause}"), &props, format!("rebuild changed probe {}: {} -> {}", shorten_key(k), a, b));
@@ -1619,6 +1647,7 @@ impl Sim {
         }
         let _ = fs::remove_dir_all(&chk);
         self.last_obs = Some(after);
+        self.failed_store_since_restart = false;
         let ctx = OpCtx { kind: CtxKind::Restart, event: None, desc: "rebuild".into(), also: &[] };
         self.model_agrees(i, &ctx)
     }
